@@ -125,8 +125,9 @@ def gen_cases(ck):
                     add(c["op"], eg.jparse(c["frame"]), {"class": "corpus"}, **kw)
 
     perm_cap = 24 if quick else 120
+    rounds = 1 if quick else 6       # thorough: several rounds with freshly drawn field values
     # ---- calls
-    for mname in eg.MTYPES:
+    for mname in [m for _ in range(rounds) for m in eg.MTYPES]:
         frames = call_frames(rng, mname)
         for tags, ms in frames:
             ms = list(ms)
@@ -136,11 +137,11 @@ def gen_cases(ck):
         # every order of the members
         small = [f for f in frames if 2 <= len(f[1]) <= 5 and f[0]["extra"] != "escaped_key"]
         rng.shuffle(small)
-        for tags, ms in small[: (14 if quick else 80)]:
+        for tags, ms in small[: (30 if quick else 80)]:
             for perm in eg.permutations_of(ms, rng, 120 if len(ms) <= 4 or not quick else perm_cap):
                 add("call", eg.Obj(perm), dict(tags, **{"class": "call_permutation"}), m=mname)
         # duplicated members (flags: the last one wins; method / parameters: error)
-        for tags, ms in small[: (5 if quick else 30)]:
+        for tags, ms in small[: (10 if quick else 30)]:
             dv = eg.dup_variants(rng, ms)
             rng.shuffle(dv)
             for d in dv[: (12 if quick else 60)]:
@@ -149,11 +150,11 @@ def gen_cases(ck):
             add("call", arr, {"class": "call_array"}, m=mname)
     # ---- errors (decoded directly, through receive_reply, and re-encoded)
     pnames = list(eg.PTYPES)
-    for ename in eg.ETYPES:
+    for ename in [e for _ in range(rounds) for e in eg.ETYPES]:
         frames = error_frames(rng, ename)
         for tags, ms, grp in frames:
             pname = "unit" if grp else rng.choice(pnames)
-            orders = [list(ms)] if len(ms) == 1 else eg.permutations_of(ms, rng, 6 if quick else 24)
+            orders = [list(ms)] if len(ms) == 1 else eg.permutations_of(ms, rng, 12 if quick else 24)
             for perm in orders:
                 c = add("reply", eg.Obj(perm), dict(tags, **{"class": "error"}), p=pname, e=ename)
                 if grp:
@@ -161,7 +162,7 @@ def gen_cases(ck):
     # ---- success replies
     for pname in eg.PTYPES:
         for tags, ms, _ in success_frames(rng, pname):
-            for perm in eg.permutations_of(ms, rng, 6):
+            for perm in eg.permutations_of(ms, rng, 6 if quick else 24):
                 add("reply", eg.Obj(perm), dict(tags, **{"class": "reply"}), p=pname, e=rng.choice(list(eg.ETYPES)))
     # ---- proxy methods without output: the three spellings; with output for contrast
     for meth, (unit, ename, pname) in eg.PROXY.items():
@@ -464,8 +465,8 @@ def main():
         "serde / serde_derive / serde_json behaviour is modelled by Shapes/Shapes.v (decoder, encoder) and tied only by "
         "this correspondence run on the compiled corpus of method, parameter and error types",
         "the Rust types of harness/src/bin/envelope.rs correspond to the shapes of the same name in Shapes/Corpus.v",
-        "frames are valid JSON texts with minimal string escapes; member names that need a JSON escape make Call "
-        "decoding fail (call/de.rs reads keys as &str) - modelled, outside the theorems' hypotheses",
+        "frames are valid JSON texts with minimal string escapes (non-minimal escapes such as \\u0041 are not generated; "
+        "they matter only for borrowed &str targets, which is serde_json's documented behaviour)",
     ]
     ck.finish(rule="a case = (operation, types, frame text); distinct by hash of those; non-trivial = an object frame "
                    "with at least two members")
